@@ -124,13 +124,13 @@ def _sig_sticky_escapes(case: dict, f: Failure) -> bool:
     first = opts.fmt(case["text"], o1)
     direct = opts.fmt(case["text"], o2)
     via = opts.fmt(first, o2)
-    esc = re.compile(r"\\(?=[-=*_`~>#+.)])")
-    if len(esc.findall(first)) <= len(esc.findall(case["text"])):
-        return False  # the first pass added no escape
+    esc = re.compile(r"\\(?=[-=*_`~>#+.)\[|:\\])")
+    if "".join(via.replace(">", "").split()) == "".join(direct.replace(">", "").split()):
+        return False  # the same backslashes in both: the difference is not one of protecting escapes
 
     def norm(t: str) -> str:
-        lines = [l.lstrip("> \t") for l in esc.sub("", t).split("\n")]
-        return " ".join(" ".join(lines).split())
+        # quote prefixes and all blanks are dropped (a '>' may also be a word of the text: dropped on both sides alike)
+        return "".join(esc.sub("", t).replace(">", "").split())
 
     return norm(via) == norm(direct)
 
@@ -162,7 +162,7 @@ def _twopass_case(draw, feat: frozenset):
 def shard_work(ctx: Ctx) -> None:
     # tag lines are left out: a paragraph that directly follows a tag line makes every newline in it significant
     # to flowmark's block heuristics, which is outside "a newline directly before or after a tag"
-    feat = frozenset(docdomain.features("C03", ctx) - {"tagline"})
+    feat = frozenset((docdomain.features("C03", ctx) - {"tagline"}) | {"no_lone_tick"})
     ctx.run_hypothesis("relayout", _relayout_case(feat), ctx.n(5000, 200000))
     # relation (b): no inline tags/comments, no hazard words (none are in the C03 feature set)
     feat_b = frozenset(feat - {"tags", "html", "tagline"})
